@@ -90,7 +90,7 @@ VARIABLES chain,      \* sequence of committed blocks [st: SUBSET AllKeys, g: ge
           pcache,     \* memory: key -> the state (Ref) held by the permanent store's state cache, <<>> = none
           eff,        \* what the last action did to the memory: [drop: keys whose cache entry it invalidated,
                       \* tc: a temp with a state cache was merged or forgotten]
-          pending,    \* TRUE: an action has been taken and ReadAll (a read of every kind) comes next
+          pending,    \* TRUE: an action has been taken and ReadAll (a read of every kind) or NoRead comes next
           nsteps,
           lastact,    \* output only
           path,       \* output only
